@@ -198,7 +198,7 @@ def strat_real(draw, tier):
 
 
 PARTS = [
-    Part("cascade", exec_case, strategy=lambda tier: cc.cascade_cases(tier), examples={"quick": 240, "thorough": 8000}, shards={"quick": 16, "thorough": 16},
+    Part("cascade", exec_case, strategy=lambda tier: cc.cascade_cases(tier), examples={"quick": 480, "thorough": 8000}, shards={"quick": 16, "thorough": 16},
          budget_s={"quick": 75, "thorough": 1500}, engine="serial for k=1, A for k>=2", describe="generated sparse pyramids x formats/modes x k x schedules"),
     Part("cascade_realmp", exec_real, strategy=strat_real, examples={"quick": 48, "thorough": 600}, shards={"quick": 8, "thorough": 16},
          budget_s={"quick": 60, "thorough": 1200}, shrink=False, engine="R (real multiprocessing)", describe="the same cases on real multiprocessing with 2-4 workers (validates Engine A's verdicts on samples)"),
